@@ -51,20 +51,20 @@ Base(name) ==
            <<S2, PMember(UB, UB, "join"), "$F", 0>>,
            <<S1, PJoinRules(UA, "invite"), "$G", 1, {"$F"}>>,
            <<S1, PPowerLevels(UC, MkPL((UC.name :> 100) @@ (UA.name :> 100) @@ (UB.name :> 50))), "$H", 0, {"$F"}>>>>
-    [] name = "twostep" ->       \* a merge of two branches that is merged again with a continuation of one of them: two power
-                                 \* levels events X ($G) and Y ($I) on two branches, A's leave $H cites X, $J merges both
-                                 \* branches (Y wins, the leave survives), $K continues the second branch without having seen X:
-                                 \* between the states after $J and $K the power levels are unconflicted and X only occurs in
-                                 \* the auth difference
+    [] name = "twostep" ->       \* a merge of two branches that is merged again with a continuation of one of them: power levels
+                                 \* X ($G) and Y ($I) on two branches, A's topic $H cites X, $J merges both branches (Y wins, the
+                                 \* topic survives), B's topic $K continues the second branch without having seen X: between the
+                                 \* states after $J and $K the power levels are unconflicted and X only occurs in the auth
+                                 \* difference, where it decides the mainline
          <<<<S1, PCreate, "$A", 0>>, <<S1, PMember(UC, UC, "join"), "$B", 0>>,
            <<S1, PPowerLevels(UC, MkPL((UC.name :> 100))), "$C", 0>>,
-           <<S1, PJoinRules(UC, "public"), "$D", 0>>, <<S1, PMember(UA, UA, "join"), "$E", 5>>,
+           <<S1, PJoinRules(UC, "public"), "$D", 0>>, <<S1, PMember(UA, UA, "join"), "$E", 0>>,
            <<S2, PMember(UB, UB, "join"), "$F", 0>>,
            <<S1, PPowerLevels(UC, MkPL((UC.name :> 100) @@ (UA.name :> 50))), "$G", 1, {"$F"}>>,
-           <<S1, PMember(UA, UA, "leave"), "$H", 1, {"$G"}>>,
+           <<S1, PTopic(UA, 1), "$H", 1, {"$G"}>>,
            <<S1, PPowerLevels(UC, MkPL((UC.name :> 100) @@ (UA.name :> 50) @@ (UB.name :> 50))), "$I", 2, {"$F"}>>,
-           <<S1, PTopic(UC, 1), "$J", 3, {"$H", "$I"}>>,
-           <<S1, PTopic(UC, 2), "$K", 3, {"$I"}>>>>
+           <<S1, PMember(UC, UC, "join"), "$J", 3, {"$H", "$I"}>>,
+           <<S2, PTopic(UB, 2), "$K", 3, {"$I"}>>>>
     [] name = "restricted" ->    \* restricted room (v8+): A joined with 50, B outside
          <<<<S1, PCreate, "$A", 0>>, <<S1, PMember(UC, UC, "join"), "$B", 0>>,
            <<S1, PPowerLevels(UC, MkPL((UC.name :> 100) @@ (UA.name :> 50))), "$C", 0>>,
